@@ -254,6 +254,8 @@ func buildWorld(l logical, k ruleKnobs, mode config.OperationMode) (*vkit.World,
 		"X-V-Method":   "{{ .Request.Method }}",
 		"X-V-Scheme":   "{{ .Request.URL.Scheme }}",
 		"X-V-Host":     "{{ .Request.URL.Host }}",
+		"X-V-HostHdr":  `{{ .Request.Header "Host" }}`,
+		"X-V-HostMap":  `{{ index .Request.Headers "Host" }}`,
 		"X-V-Path":     b64t(".Request.URL.Path"),
 		"X-V-RawPath":  b64t(".Request.URL.RawPath"),
 		"X-V-URL":      b64t(".Request.URL.String"),
@@ -341,7 +343,7 @@ func (o observation) String() string {
 	return sb.String()
 }
 
-var viewHeaders = []string{"X-V-Method", "X-V-Scheme", "X-V-Host", "X-V-Path", "X-V-RawPath", "X-V-URL", "X-V-Query", "X-V-Captures", "X-V-Hdr", "X-V-Cookie", "X-V-Body", "X-V-Subject", "X-Cond", "X-Multi"}
+var viewHeaders = []string{"X-V-Method", "X-V-Scheme", "X-V-Host", "X-V-HostHdr", "X-V-HostMap", "X-V-Path", "X-V-RawPath", "X-V-URL", "X-V-Query", "X-V-Captures", "X-V-Hdr", "X-V-Cookie", "X-V-Body", "X-V-Subject", "X-Cond", "X-Multi"}
 
 func dec(s string) string {
 	raw, err := base64.StdEncoding.DecodeString(s)
@@ -446,8 +448,19 @@ func multiValueDiffers() bool {
 
 const kfMulti = "C13-multi-valued-pipeline-header-first-value-only-on-http"
 
+const kfHostMap = "C13-host-missing-in-headers-map-on-envoy-entry-point"
+
+// hostMissingInHeadersMap: pinned reproduction of the listed finding - Request.Headers (the map) has a Host entry for the HTTP
+// entry points and none for the Envoy gRPC one.
+func hostMissingInHeadersMap() bool {
+	obs, ok := pinned(ruleKnobs{}, nil)
+
+	return ok && obs[vkit.EntryDecision].View["X-V-HostMap"] == "svc.example.com" && obs[vkit.EntryGRPC].View["X-V-HostMap"] != "svc.example.com"
+}
+
 func TestEntryPointsAgree(t *testing.T) {
 	exclMulti := vkit.Known(kfMulti, multiValueDiffers)
+	exclHostMap := vkit.Known(kfHostMap, hostMissingInHeadersMap)
 
 	rapid.Check(t, func(t *rapid.T) {
 		l := genLogical(t)
@@ -506,6 +519,13 @@ func TestEntryPointsAgree(t *testing.T) {
 			if g := obs[vkit.EntryGRPC]; g.Positive && obs[vkit.EntryDecision].Positive {
 				g.View["X-Multi"] = obs[vkit.EntryDecision].View["X-Multi"]
 			}
+		}
+
+		if g := obs[vkit.EntryGRPC]; exclHostMap && g.Positive && obs[vkit.EntryDecision].Positive && g.View["X-V-HostMap"] == "<present, empty>" {
+			// listed finding: exactly this entry of the map; Request.Header "Host" and everything else is compared
+			vkit.S.Exclude(kfHostMap)
+
+			g.View["X-V-HostMap"] = obs[vkit.EntryDecision].View["X-V-HostMap"]
 		}
 
 		d := obs[vkit.EntryDecision]
